@@ -106,7 +106,9 @@ def run(tier: str, seed: int) -> int:
         # 2. schedules enumerated by TLC
         f1 = pool.submit(_paths, 'AtomicWrite_paths1.cfg' if quick else 'AtomicWrite_paths1_big.cfg')
         f2 = pool.submit(_paths, 'AtomicWrite_paths2.cfg')
-        f2r = pool.submit(_paths, 'AtomicWrite_paths2r.cfg')     # one writer object used twice, overlapping the other
+        # one writer object used twice (at most one handled failure in its first round), overlapping the other
+        f2r = pool.submit(_paths, 'AtomicWrite_paths2r.cfg')
+        f1r = pool.submit(_paths, 'AtomicWrite_paths1r.cfg')     # one writer, two rounds, fault / crash anywhere
         # 3. reference runs of the large scenarios; TLC derives their injection points
         ref = work.path('ref.ndjson')
         core.run_driver('c12_driver.py', ['ref', ref], env={'VERIF_SEED': seed, 'VERIF_TIER': tier})
@@ -125,14 +127,18 @@ def run(tier: str, seed: int) -> int:
                            env={'VERIF_SEED': seed, 'VERIF_TIER': tier})
         ph = {'ref+points': round(time.time() - t0, 1)}
         paths1, r1 = f1.result()
-        dpool = cf.ThreadPoolExecutor(max_workers=6)
+        dpool = cf.ThreadPoolExecutor(max_workers=7)
         d1 = dpool.submit(_drive, work, 'p1', paths1, 'aw-bytes,aw-text', seed, tier, 3 if quick else 6)
         paths2, r2 = f2.result()
         paths2r, r2r = f2r.result()
+        paths1r, r1r = f1r.result()
+        for lab, ps in (('path1', paths1), ('path2', paths2), ('path2r', paths2r), ('path1r', paths1r)):
+            for p in ps:
+                p['lab'] = lab          # the family a schedule belongs to (a re-use schedule may end before the re-entry)
         ph['schedules'] = round(time.time() - t0, 1)
         rnd = random.Random(seed)
         model_ops: dict = {}
-        for p in paths1 + paths2 + paths2r:
+        for p in paths1 + paths2 + paths2r + paths1r:
             for e in p['ev']:
                 k = f"{e['op']}:{e['res']}"
                 model_ops[k] = model_ops.get(k, 0) + 1
@@ -140,27 +146,32 @@ def run(tier: str, seed: int) -> int:
         if missing:
             raise MachineryError(f'vacuous model: steps never taken in any schedule: {sorted(missing)}')
         cov['schedules_enumerated'] = {'one_writer': len(paths1), 'two_writers': len(paths2),
-                                       'two_writers_one_reused': len(paths2r)}
-        for name, r in (('paths1', r1), ('paths2', r2), ('paths2r', r2r)):
+                                       'two_writers_one_reused': len(paths2r), 'one_writer_reused': len(paths1r)}
+        for name, r in (('paths1', r1), ('paths2', r2), ('paths2r', r2r), ('paths1r', r1r)):
             cov['models'][name] = {'generated': r.generated, 'distinct': r.distinct, 'depth': r.depth}
             cov['states'] += r.distinct
             cov['transitions'] += r.generated
         if quick:
-            sel2 = rnd.sample(paths2, min(len(paths2), 1000))
-            sel2t = rnd.sample(paths2, min(len(paths2), 250))
-            selr = rnd.sample(paths2r, min(len(paths2r), 450))
-            selrt = rnd.sample(paths2r, min(len(paths2r), 150))
+            sel2 = rnd.sample(paths2, min(len(paths2), 800))
+            sel2t = rnd.sample(paths2, min(len(paths2), 200))
+            calm = [p for p in paths2r if not any(e['res'] == 'fault' or e['op'] == 'bodyerr' for e in p['ev'])]
+            rough = [p for p in paths2r if any(e['res'] == 'fault' or e['op'] == 'bodyerr' for e in p['ev'])]
+            selr = rnd.sample(calm, min(len(calm), 200)) + rnd.sample(rough, min(len(rough), 300))
+            selrt = rnd.sample(calm, min(len(calm), 50)) + rnd.sample(rough, min(len(rough), 100))
+            sel1r = rnd.sample(paths1r, min(len(paths1r), 500))
         else:
             sel2 = paths2
             sel2t = rnd.sample(paths2, min(len(paths2), 3000))
             selr = paths2r
-            selrt = paths2r
+            selrt = rnd.sample(paths2r, min(len(paths2r), 5000))
+            sel1r = paths1r
         recs = [ref]
         d2 = dpool.submit(_drive, work, 'p2b', sel2, 'aw-bytes', seed, tier, 4 if quick else 10)
         d3 = dpool.submit(_drive, work, 'p2t', sel2t, 'aw-text', seed, tier, 1 if quick else 3)
-        d4 = dpool.submit(_drive, work, 'prb', selr, 'aw-bytes', seed, tier, 2 if quick else 4)
+        d4 = dpool.submit(_drive, work, 'prb', selr, 'aw-bytes', seed, tier, 2 if quick else 8)
         d5 = dpool.submit(_drive, work, 'prt', selrt, 'aw-text', seed, tier, 1 if quick else 4)
-        recs += d1.result() + d2.result() + d3.result() + d4.result() + d5.result()
+        d6 = dpool.submit(_drive, work, 'p1r', sel1r, 'aw-bytes' if quick else 'aw-bytes,aw-text', seed, tier, 1 if quick else 4)
+        recs += d1.result() + d2.result() + d3.result() + d4.result() + d5.result() + d6.result()
         dpool.shutdown()
         finj.result()
         recs.append(inj)
@@ -224,15 +235,17 @@ def run(tier: str, seed: int) -> int:
         cov['rule'] = ('every behaviour of the one-writer model (body of <= 2 writes quick / 3 thorough, stale temp files, '
                        'missing directory, one OSError, body exception, crash at every boundary) in bytes and text mode; '
                        'two writers: every interleaving of the directory-level operations with at most one abnormal event '
-                       '(seeded sample of 1000+250 in the quick tier, all in the thorough tier); two writers where one writer OBJECT is '
+                       '(seeded sample of 800+200 in the quick tier, all in the thorough tier); two writers where one writer OBJECT is '
                        'used for two rounds that overlap the other writer in every order of the directory-level operations '
-                       '(no abnormal event; sample of 450+150 quick, all 3664 x 2 modes thorough); BSP.save on a synthetic map '
+                       '(at most one handled failure - body exception, failing final flush / close / rename - in the first round of the '
+                       're-used writer; stratified sample of 500+150 quick, all 22536 thorough); one writer used for two rounds '
+                       'with a fault or crash anywhere (sample of 500 quick, all 6048 x 2 modes thorough); BSP.save on a synthetic map '
                        'and seeded large writes: every crash / fault / body-exception point TLC derives from the reference run')
         known, new = core.classify(PROP, [sig_of(m) for m in allm])
         if not new:
             # coverage handshake: one logged run per enumerated schedule / injection point
             want_runs = {'aw-bytes/path1': len(paths1), 'aw-text/path1': len(paths1), 'aw-bytes/path2': len(sel2),
-                         'aw-text/path2': len(sel2t), 'aw-bytes/path2r': len(selr), 'aw-text/path2r': len(selrt)}
+                         'aw-text/path2': len(sel2t), 'aw-bytes/path2r': len(selr), 'aw-text/path2r': len(selrt), 'aw-bytes/path1r': len(sel1r)}
             got_inject = sum(v for k, v in kinds.items() if k.endswith('/inject'))
             for k, v in want_runs.items():
                 if kinds.get(k, 0) != v:
